@@ -110,4 +110,4 @@ def run(tier, seed, replay=None):
         'mutations (delete/insert/replace/duplicate/truncate/token insert), token soup over the full symbol alphabet, random bytes / invalid UTF-8, focused '
         'streams for string escapes, number literals, regex literals, lambda signatures; exact comparison of AST dump or (type, position, token, hint); '
         'distinct = distinct byte string; non-trivial = any input (both outcomes are meaningful)',
-        cases, owner_direct=('errwf', 'usable', 'must'), timeout_ms=2000)
+        cases, owner_direct=('errwf', 'usable', 'must'), timeout_ms=2000, disagree_is_input=False)
